@@ -5,6 +5,7 @@ import (
 	"go/token"
 	"go/types"
 	"log"
+	"strconv"
 
 	"github.com/goghcrow/go-loader"
 	"github.com/goghcrow/go-matcher"
@@ -24,6 +25,7 @@ type yieldRewriter struct {
 	rewriteRetCache map[ast.Node]bool
 
 	symCnt int // for unique symbol
+	tmpCnt int // for unique temporaries of partial redeclarations
 }
 
 func mkYieldRewriter(r *rewriter, pkg loader.Pkg) func(*astutil.Cursor, loader.Pkg) bool {
@@ -667,6 +669,34 @@ func (r *yieldRewriter) rewriteReturnAndForSwitchInitStmtInYieldFun(body *ast.Bl
 					c.InsertBefore(X.IgnoreExpr(n.Results[0]))
 				}
 				c.Replace(X.Return(r.CallReturn()))
+			}
+
+		case *ast.AssignStmt:
+			// n, m := ... where n is already declared in the same block only assigns n, m is the new one.
+			// the stmt may end up in a func lit (after a yield), where := would declare another n, so
+			// 	n, m := f()
+			// =>
+			// 	tmp, m := f()
+			// 	n = tmp
+			if inYieldFunc() && n.Tok == token.DEFINE && c.Index() >= 0 && n.TokPos.IsValid() /*not generated*/ {
+				info := r.pkg.TypeInfo()
+				var assigns []ast.Stmt
+				for i, lhs := range n.Lhs {
+					id, _ := lhs.(*ast.Ident)
+					if id == nil || isUnderline(id) || !id.NamePos.IsValid() {
+						continue
+					}
+					// redeclared: not defined but used here (generated idents are neither)
+					if info.Defs[id] == nil && info.Uses[id] != nil {
+						r.tmpCnt++
+						tmp := X.Ident(cstRedefineVar + strconv.Itoa(r.tmpCnt))
+						n.Lhs[i] = tmp
+						assigns = append(assigns, X.Assign(token.ASSIGN, id, tmp))
+					}
+				}
+				for i := len(assigns) - 1; i >= 0; i-- {
+					c.InsertAfter(assigns[i])
+				}
 			}
 
 		case *ast.ForStmt:
